@@ -408,7 +408,16 @@ def gen_dsp(rng):
     for _ in range(rng.randint(1, 3)): setup.append(reg())
     for e in range(nE):
         if rng.random() < 0.5: setup.append("insert e%d 0 1" % e)
+    twin = rng.random() < 0.35
+    if twin:
+        # one reactor watches two entities and, while it runs, despawns both and calls another system: the nested runner's
+        # poll finds both despawns while the reactor's callback is out, so two despawn reactions for it are postponed
+        out.append("def 0 2"); out += ["run 3", "despawn e0", "despawn e1", "run s%d" % (nS + 1), "run 0"]
+        out.append("def 0 1"); out += ["run 0"]
+        setup.append("on %s %d bc:1 dsp:e0 dsp:e1" % (rng.choice("ppc"), g.ndefs)); nS += 1
+        setup.append("spawnsys %d" % (g.ndefs + 1)); nS += 1
     out.append("top acts %d" % len(setup)); out += setup
+    if twin and rng.random() < 0.7: out += ["top acts 1", "broadcast 1 %d" % g.newpid()]
     parents = Parents()
     for _ in range(rng.randint(3, 8)):
         x = rng.random()
@@ -630,12 +639,16 @@ def gen_frames(rng):
         t = rng.choice(["dsp:%s" % e, "erem:%s:%d" % (e, rng.randrange(NTY)), "bc:0", "dsp:%s erem:%s:0" % (e, e)])
         setup.append("on %s %d %s" % (rng.choice("pcr"), rng.randrange(g.ndefs), t)); nS += 1
     out.append("top acts %d" % len(setup)); out += setup
-    for _ in range(rng.randint(3, 8)):
+    nsig = 0
+    for _ in range(rng.randint(3, 9)):
         x = rng.random(); e = "e%d" % rng.randrange(nE)
-        if x < 0.3: out.append("top update")
-        elif x < 0.45: out.append("top wremove %s %d" % (e, rng.randrange(NTY)))
-        elif x < 0.55: out.append("top wdespawn %s" % e)
-        elif x < 0.6: out.append("top wdespawn s%d" % rng.randrange(nS))
+        if x < 0.25: out.append("top update")
+        elif x < 0.35: out.append("top sigprepare %s" % e); nsig += 1
+        elif x < 0.45 and nsig: out.append("top sigdrop a%d" % rng.randrange(nsig))
+        elif x < 0.5 and nsig: out.append("top sigclone a%d" % rng.randrange(nsig))
+        elif x < 0.55: out.append("top wremove %s %d" % (e, rng.randrange(NTY)))
+        elif x < 0.62: out.append("top wdespawn %s" % e)
+        elif x < 0.66: out.append("top wdespawn s%d" % rng.randrange(nS))
         else:
             sc = []
             for _ in range(rng.randint(1, 3)):
@@ -734,6 +747,15 @@ def gen_ewr(rng):
     for w in range(g.n_wr):
         setup.append("wradd %d %s" % (w, g.trigs(1, 3, ["bc", "res", "mut", "ins", "eev", "emut"])))
     out.append("top acts %d" % len(setup)); out += setup
+    if g.n_wr and rng.random() < 0.4:
+        # a world reactor with triggers on two entities and a broadcast; one entity dies; the whole bundle is removed
+        ea, eb = rng.sample(range(nE), 2)
+        kind = rng.choice(["eev", "emut"])
+        bundle = "%s:e%d:0 %s:e%d:0 bc:0" % (kind, ea, kind, eb)
+        out += ["top acts 1", "wradd 0 " + bundle]
+        out += ["top acts 1", rng.choice(["despawn e%d" % ea, "despawn e%d" % eb, "resmut 0"])]
+        out += ["top acts 1", "wrremove 0 " + bundle]
+        out += ["top acts 3", "entevent e%d 0 %d" % (eb, g.newpid()), "mutate e%d 0 3" % eb, "broadcast 0 %d" % g.newpid()]
     for _ in range(rng.randint(3, 8)):
         sc = []
         for _ in range(rng.randint(1, 3)):
